@@ -162,7 +162,6 @@ func genCase(t *rapid.T) Case {
 	return Case{Expr: e, Ctx: g.ctxID(), MapFn: rapid.Bool().Draw(t, "mapfn"), Blanks: rapid.Bool().Draw(t, "blanks")}
 }
 
-
 // Gen is the exported generator (used by C05/C06).
 func Gen(t *rapid.T) Case { return genCase(t) }
 
